@@ -508,6 +508,13 @@ class Executor(Exec):
         try:
             if isinstance(tree, ast.Name):
                 v = st.env.get(tree.id)
+                if isinstance(v, VStream):
+                    # a stream argument the callee writes to: unknown new content (its postcondition says which)
+                    content = self.flat.fresh(parse_type("bytes"), "hv_written")
+                    st.pc += self.flat.facts(parse_type("bytes"), content)
+                    st.streams[v.sid] = content
+                    st.nwrites[0] += 1
+                    return None
                 if not isinstance(v, VRef):
                     raise Unsupported(f"modifies {path}: not an object")
                 loc = v.loc
@@ -531,8 +538,7 @@ class Executor(Exec):
                 raise Unsupported("list.index")
             if name == "count":
                 raise Unsupported("list.count")
-            if name in ("tofile", "tobytes"):
-                raise Unsupported("array.tofile outside the stream model")
+            pass
         if isinstance(recv, VMap):
             if name == "get":
                 k = args[0].t
@@ -540,6 +546,8 @@ class Executor(Exec):
                 return VOpt(z3.Not(recv.dom[k]), VInt(recv.val[k]))
         if isinstance(recv, VStr):
             if name == "lower":
+                if recv.lit is not None:
+                    return VStr.const(recv.lit.lower())
                 return VStr(str_lower(recv.t))
             if name == "encode":
                 from . import lib_models
@@ -547,6 +555,15 @@ class Executor(Exec):
             if name == "isascii":
                 from . import lib_models
                 return VBool(lib_models.is_ascii(recv.t))
+            if name in ("exists", "expanduser", "resolve"):
+                from . import streams
+                self.lib_used.add("pathlib: Path(p).exists() reads the modelled file system; expanduser()/resolve() "
+                                  "give the canonical path (an idempotent uninterpreted function of the path text)")
+                if name == "exists":
+                    return VBool(streams.fs_state(st)[2][streams.rpath(recv.t)])
+                if name == "resolve":
+                    return VStr(streams.rpath(recv.t))
+                return recv
         from . import lib_models
         return lib_models.value_method(self, st, recv, name, args, kwargs, node)
 
